@@ -240,11 +240,41 @@ def feasible(path: Sequence[Ev]) -> bool:
                 return False
             # the same call-free test cannot come out differently twice unless something it reads was assigned in between
             if not any(isinstance(x, (ast.Call, ast.Await, ast.Yield, ast.NamedExpr)) for x in ast.walk(n)):
-                src = ast.unparse(n)
-                if src in decided and decided[src][0] != bool(ev.outcome):
+                def known(e):
+                    """outcome of e as far as the tests already taken on this path decide it (None: open)"""
+                    src_ = ast.unparse(e)
+                    if src_ in decided:
+                        return decided[src_][0]
+                    if isinstance(e, ast.UnaryOp) and isinstance(e.op, ast.Not):
+                        r = known(e.operand)
+                        return None if r is None else not r
+                    if isinstance(e, ast.BoolOp):
+                        rs = [known(x) for x in e.values]
+                        if isinstance(e.op, ast.And):
+                            if any(r is False for r in rs):
+                                return False
+                            if all(r is True for r in rs):
+                                return True
+                        else:
+                            if any(r is True for r in rs):
+                                return True
+                            if all(r is False for r in rs):
+                                return False
+                    return None
+
+                def record(e, outcome):
+                    decided[ast.unparse(e)] = (outcome, {x.id for x in ast.walk(e) if isinstance(x, ast.Name)},
+                                               {ast.unparse(x) for x in ast.walk(e) if isinstance(x, ast.Attribute)})
+                    # what the outcome says about the parts: `A and B` true -> both true; `A or B` false -> both false; `not A`
+                    if isinstance(e, ast.UnaryOp) and isinstance(e.op, ast.Not):
+                        record(e.operand, not outcome)
+                    elif isinstance(e, ast.BoolOp) and ((isinstance(e.op, ast.And) and outcome) or (isinstance(e.op, ast.Or) and not outcome)):
+                        for x in e.values:
+                            record(x, outcome)
+                kn = known(n)
+                if kn is not None and kn != bool(ev.outcome):
                     return False
-                decided[src] = (bool(ev.outcome), {x.id for x in ast.walk(n) if isinstance(x, ast.Name)},
-                                {ast.unparse(x) for x in ast.walk(n) if isinstance(x, ast.Attribute)})
+                record(n, bool(ev.outcome))
         elif ev.kind in ('stmt',) and n is not None:
             stored = [x.id for x in ast.walk(n) if isinstance(x, ast.Name) and isinstance(x.ctx, (ast.Store, ast.Del))]
             astored = [ast.unparse(x) for x in ast.walk(n) if isinstance(x, ast.Attribute) and isinstance(x.ctx, (ast.Store, ast.Del))]
